@@ -75,7 +75,11 @@ def gen_cases(rng, sides, n, drop):
             x = gen.var()
             l = gen.term(depth)
             s = rng.random()
-            if s < 0.45:       # x occurs free in the consequent under k notation layers
+            if s < 0.12:       # consequent = notation whose definition substitutes ANOTHER variable; x comes in through the plug
+                r, x = G.subst_body_case(rng, gen)
+            elif s < 0.2:      # consequent = top-level Instantiate where x does not come in through an argument
+                r, x = G.open_body_case(rng, gen)
+            elif s < 0.45:     # x occurs free in the consequent under k notation layers
                 r = wrap_layers(rng, gen, ('e', x), rng.randrange(0, 4))
             elif s < 0.6:      # x bound in the consequent
                 r = wrap_layers(rng, gen, ('x', x, ('i', ('e', x), gen.term(1))), rng.randrange(0, 3))
